@@ -137,6 +137,49 @@ def r_count(ctx, prog, codecs):
                          '%s: %s must be updated exactly under esi %s nb_source_symbols' % (IT, cname, '<' if pred == 'ult' else '>='))
 
 
+# ------------------------------------------------------------------ R-IT-STEP3
+def r_it_step3(ctx, prog):
+    """Step 3 of the iterative decoder visits every equation registered as degree one: the loop over the work list is left
+    only by its own bound or because decoding has just been reported complete."""
+    R = 'R-IT-STEP3'
+    ctx.rule(R, 'the loop that re-injects symbols rebuilt from degree-1 equations runs over the whole work list: its only exits are '
+             'the loop bound and "decoding is complete"', floor=1)
+    f = prog.need_fn(IT, R)
+    tt = Terms(f)
+    from .ir import out_edges, cond_atoms
+    found = 0
+    for lp in f.loops.values():
+        if lp.depth != 1:
+            continue
+        lr = loop_range(f, lp, tt)
+        if lr is None or lr.step != -1 or lr.pred != 'sge' or lr.bound != ('const', 0):
+            continue
+        # it must be the loop that contains the recursive re-injection
+        if not any(c.callee == IT for c in calls_in_loop(f, lp)):
+            continue
+        found += 1
+        bad = None
+        for b in lp.exiting:
+            for s2, lab in out_edges(b):
+                if s2.id in lp.blocks:
+                    continue
+                if b is lp.header:
+                    continue
+                ok = False
+                if lab and lab[0] == 'br':
+                    for a in cond_atoms(tt, lab[1], lab[2]):
+                        if a[0] == 'cmp' and a[1] == 'ne' and a[3] == ('const', 0) and a[2][0] == 'call' and \
+                                a[2][1] == 'of_is_decoding_complete':
+                            ok = True
+                # error exits (allocation failure) are not there in step 3 today; any other early exit drops pending equations
+                if not ok:
+                    bad = b.term()
+        ctx.instance(R, bad is None, bad or lp.header.term(), IT + ':step3-exits',
+                     'the step-3 loop can be left before the list of degree-1 equations is exhausted (exit at %s): symbols that '
+                     'are determined stay undecoded, depending on the arrival order' % (bad.loc() if bad else ''))
+    ctx.need(found == 1, R, 'step-3 loop (descending work list with recursive re-injection) not recognised (%d candidates)' % found)
+
+
 # ------------------------------------------------------------------ R-SETAVAIL
 def r_setavail(ctx, prog, codecs, need_order=False):
     R = 'R-SETAVAIL'
@@ -320,31 +363,30 @@ def r_rs_threshold(ctx, prog, codecs):
         ctx.need(cores, R, '%s no longer calls %s' % (fam['fin'], fam['core']))
         for c in cores:
             atoms = atoms_at(f, tt, c.block)
-            ok = has_atom(atoms, 'uge', nav, k)
+            ok = has_atom(atoms, 'uge', nav, k) or has_atom(atoms, 'eq', nav, k) or has_atom(atoms, 'ugt', nav, k)
             ctx.instance(R, ok, c, fam['fin'] + ':decode-guard',
                          '%s calls %s without the dominating check nb_available_symbols >= nb_source_symbols' % (fam['fin'], fam['core']))
-        # the "<k" edge
-        found = False
-        for b in f.blocks:
-            atoms = atoms_at(f, tt, b)
-            if has_atom(atoms, 'ult', nav, k):
-                found = True
-        ctx.need(found, R, '%s: no branch on nb_available_symbols < k' % fam['fin'])
+        # FAILURE is returned exactly under "fewer than k": every non-error FAILURE return lies under nav < k, and nav < k leads
+        # only to FAILURE returns without touching the flag
         okf = True
         bad = None
-        for v, chain, r in ret_sources(f):
-            src = f.bmap[chain[0][0]] if chain else r.block
+        nfail = 0
+        for v, src, r in nonerror_returns(prog, f):
             atoms = atoms_at(f, tt, src)
-            if has_atom(atoms, 'ult', nav, k):
-                if const_of(v) != FAILURE:
+            below = has_atom(atoms, 'ult', nav, k)
+            if const_of(v) == FAILURE:
+                nfail += 1
+                if not below:
                     okf, bad = False, r
-        # stores to decoding_finished under < k
+            elif below:
+                okf, bad = False, r
         for i in f.all_insts():
             if i.op == 'store' and addr_root(tt.term(i.ops[1])) == ('field', 'decoding_finished'):
                 if has_atom(atoms_at(f, tt, i.block), 'ult', nav, k):
                     okf, bad = False, i
-        ctx.instance(R, okf, bad or f, fam['fin'] + ':below-k',
-                     '%s: with fewer than k symbols the routine must return OF_STATUS_FAILURE and leave decoding_finished untouched' % fam['fin'])
+        ctx.instance(R, okf and nfail >= 1, bad or f, fam['fin'] + ':below-k',
+                     '%s: OF_STATUS_FAILURE must be returned exactly when fewer than k symbols are available (nb_available_symbols < '
+                     'nb_source_symbols), and then the session must not be marked finished' % fam['fin'])
         # trigger in the per-symbol routine
         g = prog.need_fn(fam['dec'], R)
         gt = Terms(g)
